@@ -2068,6 +2068,10 @@ enum sexp_opcode_names {
   SEXP_OP_NUM_OPCODES
 };
 
+#if CHIBI_VERIF
+#include "chibi/verif.h"
+#endif
+
 #ifdef __cplusplus
 } /* extern "C" */
 #endif
